@@ -39,7 +39,7 @@ def strategy_(draw, tier):
     for i in range(draw(st.integers(1, 6))):
         tdir, base = draw(st.sampled_from(tds))
         ents.append(dict(tdir=tdir, base=base, name=draw(gen.names(long_ok=False)),
-                         kind=draw(st.sampled_from(["link", "link", "tree", "tree", "file", "emptydir"])),
+                         kind=draw(st.sampled_from(["link", "link", "tree", "tree", "file", "emptydir", "fifo"])),
                          link=draw(st.sampled_from(LINKS)),
                          inner=[draw(st.sampled_from(LINKS)) for _ in range(draw(st.integers(0, 3)))],
                          special=draw(st.sampled_from(SPECIAL)),
@@ -133,6 +133,8 @@ def run_case(case):
                 link_kinds.add(e["link"])
             elif e["kind"] == "file":
                 tw.nodes.append({"p": pp, "t": "f", "c": "payload"})
+            elif e["kind"] == "fifo":
+                tw.nodes.append({"p": pp, "t": "p", "m": 0o600})
             elif e["kind"] == "emptydir":
                 # an empty directory as payload (removal primitives that prune empty parents
                 # would take files/ and the trash directory with it)
